@@ -8,16 +8,29 @@
    fresh loop element at the first segment of a loop; (3) escaping is invertible and leaves no raw < > ('), so data
    cannot introduce markup; (4) the element tree of one segment converts back (model of xmlx12_simple.get_segment) to
    the segment with its not-used elements blanked.
-   NOT proved (trusted, compared by the check on every run): that an XML parser (expat / ElementTree) reads the
-   serialised events back as the corresponding tree; control characters and CR in data (not representable in XML 1.0). *)
+   (5) READING BACK (Spec/C08_parse_spec.v, Proofs/C08_parse.v, C08_doc.v): xml_read is a small total reader for
+   exactly the XML subset the writer emits (declaration, optional DOCTYPE, elements with quoted attributes, text,
+   the five entities, end-of-line and attribute-value normalisation, the XML 1.0 character range), returning the
+   tree as ElementTree presents it; C08_xml_read_inverts_serialiser: for every balanced one-rooted event sequence
+   with well-formed names and XML-representable values, xml_read (serialise evs) is the tree of the events;
+   C08_document_read_back: for any located segments (hypotheses of (1) plus doc_xml_ok: ids and values
+   representable; doc_shallow: loop depth <= 60, XmlIn's fuel), the text written reads back as the tree of the
+   events, its <seg> nodes are the per-segment trees, and converting it (model of xmlx12_simple.convert) hands
+   exactly those segments to the X12 writer, whose output C11 characterises.  What XML cannot carry is stated and
+   machine-checked (TAB / LF in an id become a blank, CR in data becomes LF, control characters make the text
+   unreadable: Proofs/C08_doc_examples.v, each agreeing with expat on the real writer's output).
+   NOT proved: that expat / ElementTree agree with xml_read (trusted; compared by the check on every run, and on the
+   examples); the per-segment conversion (4) for ISA and for composite-bearing segments of the shipped maps, whose
+   ids the existing lemma's hypothesis node_fits does not admit (the document theorem (5) covers them up to the
+   segment trees, and the check converts them on every run). *)
 From Coq Require Import String.
 From PX.Lib Require Import Base PyStr Xml.
 From PX.Gen Require Import MapRegexes.
 From PX.Gen.Maps Require M_dataele M_codes.
 From PX.Gen.C08 Require Import All.
 From PX.Model Require Import Path Segment MapLoad MapTree OutW XmlOut XmlIn.
-From PX.Spec Require Import C01_spec C08_spec.
-From PX.Proofs Require Import C08_lemmas C08_xml.
+From PX.Spec Require Import C01_spec C08_spec C08_parse_spec.
+From PX.Proofs Require Import C08_lemmas C08_xml C08_parse C08_doc.
 
 Theorem C08_escape_content_invertible :
   forall t, exists e, escape_cont (Some t) = Some e /\ xml_unescape e = t /\ no_raw ["<"%char; ">"%char] e = true.
@@ -91,3 +104,22 @@ Proof.
   rewrite forallb_forall in H. specialize (H last Hl). rewrite forallb_forall in H. exact (H cur Hc).
 Qed.
 Print Assumptions C08_prefix_safe_in_map.
+
+(* ---- reading back ---- *)
+Theorem C08_xml_read_inverts_serialiser :
+  forall evs, balanced [] evs = true -> one_root evs = true -> evs_ok evs = true ->
+  exists t, tree_of evs = Some t /\ xml_read (xml_decl ++ ser 0 evs) = Some t.
+Proof. exact xml_read_inverts_ser. Qed.
+Print Assumptions C08_xml_read_inverts_serialiser.
+
+Theorem C08_document_read_back :
+  forall xs st chunks,
+  inputs_ok [] xs = true -> inputs_fit xs = true -> doc_xml_ok xs = true -> doc_shallow xs = true ->
+  run_model xs x_empty = (st, chunks, Ok tt) ->
+  exists doc,
+    xml_read (concat chunks) = Some doc /\
+    tree_of (doc_events xs) = Some doc /\
+    map drop_ctext (seg_nodes doc) = map seg_tree_of xs /\
+    forall w, convert doc w = w_iter (fun x => write_back (seg_tree_of x)) xs w.
+Proof. exact document_read_back. Qed.
+Print Assumptions C08_document_read_back.
